@@ -22,6 +22,7 @@ def payload? (s : String) : Option (List UInt8) :=
 /-- A script operation (the environment's answers — masking keys, pooled frame length — are added by the model side). -/
 inductive SOp where
   | new (max : Int)
+  | setmax (max : Int)     -- SetMaxMessageSize on the live stream: the configured maximum changes from here on
   | plan (l : List Nat)
   | defer (b : Bool)
   | write (async : Bool) (opcode : Nat) (payload : List UInt8)
@@ -34,6 +35,7 @@ def opcodeOf (t : String) : Option Nat := if t = "text" then some 1 else if t = 
 
 def parseOp : List String → Option SOp
   | ["new", m] => (int? m).map .new
+  | ["setmax", m] => (int? m).map .setmax
   | "plan" :: l => (l.mapM fun (x : String) => x.toNat?).map .plan
   | ["defer", b] => (bool? b).map .defer
   | [w, t, p] =>
@@ -141,6 +143,12 @@ def checkWith {σ : Type} (hook : Option (Hook σ)) (sc : Driver.Script) : Drive
         pending := none
         m := hook.map (·.init max)
         s := some (Sonic.Spec.WsWire.init max)
+      | some (.setmax max) =>
+        pending := none
+        s := s.map fun st => { st with max := max }
+        if let (some h, some ms, some seen) := (hook, m, parseSeen ln.toks) then
+          let (m', res') := h.step ms myId (.setmax max) keys flen seen i res
+          m := m'; res := res'
       | some op =>
         pending := none
         if ln.toks == ["panic"] then
